@@ -68,7 +68,7 @@ chk("C11", "exploration",
     "Streams of 1-3 (thorough 1-5, plus a fixed 8-message stream) messages over 17 shapes through the REAL TCPServerTransport.receiveMessage on a simulated connection; segmentations: none, 1-byte segments, ALL single cuts and ALL pairs of cuts for short streams, all single cuts plus all pairs around line ends / body boundaries / 4096-multiples for long ones; and the single cuts end to end through a full proxy. The delivered message list must equal the sent list for every segmentation.",
     TRUST + " A short read equals an additional cut.", "exhaustive enumeration of segmentations on the real receive loop", "§4 C11")
 chk("C12", "model_checking",
-    "Explicit-state BFS by replay (depth 6 / 2 connections; thorough depth 8 / 3 connections): request and 180/200/second-200 events of two transactions per connection in every order, crossed with 40 flavours (received on/off x Via sent-by same/different/host-table name/unknown name/true port x rport x UDP/TCP backends): every provisional and first final response is written on the request's connection, on no other, without dialling; plus (race tier) schedules of the per-connection receive goroutines.",
+    "Explicit-state BFS by replay (depth 6 / 2 connections; thorough depth 7 / 3 connections): request and 180/200/second-200 events of two transactions per connection in every order, crossed with 40 flavours (received on/off x Via sent-by same/different/host-table name/unknown name/true port x rport x UDP/TCP backends): every provisional and first final response is written on the request's connection, on no other, without dialling; plus (race tier) schedules of the per-connection receive goroutines.",
     TRUST, "explicit-state BFS over event histories on the real code + schedule search", "§4 C12")
 chk("C15", "model_checking",
     "Explicit-state BFS by replay on the VIRTUAL clock (dialogTimeout 10 s via YAML, via DEFAULT_DIALOG_TIMEOUT and via the real main()): establishing responses with Expires none/5/30/2^31-1, probes of 4 consecutive in-dialog requests, BYE answered 200/481/503, NOTIFY active/terminated/terminated;reason, clock steps, unrelated traffic with huge Expires; pinned before the earliest, load-balanced after the latest promised expiry or after termination; table invariant under continuous traffic; two 200-dialog long runs (one poisoned by a huge Expires).",
